@@ -38,6 +38,7 @@ pub struct Case {
     pub world_seed: u64,
     pub fault_permille: u32,
     pub fault_mask: u32,
+    pub list_scale: u32,
     pub overrides: BTreeMap<String, world::Outcome>,
     pub schedule: Schedule,
 }
@@ -58,6 +59,7 @@ impl Case {
             "world_seed": self.world_seed.to_string(),
             "fault_permille": self.fault_permille,
             "fault_mask": self.fault_mask,
+            "list_scale": self.list_scale,
             "world": world,
             "schedule": self.schedule.to_json(),
         })
@@ -91,6 +93,7 @@ impl Case {
             world_seed: s("world_seed")?.parse().map_err(|_| "world_seed")?,
             fault_permille: j.get("fault_permille").and_then(|v| v.as_u64()).unwrap_or(0) as u32,
             fault_mask: j.get("fault_mask").and_then(|v| v.as_u64()).unwrap_or(0) as u32,
+            list_scale: j.get("list_scale").and_then(|v| v.as_u64()).unwrap_or(0) as u32,
             overrides,
             schedule: Schedule::from_json(j.get("schedule").unwrap_or(&json!({})))?,
         })
@@ -99,6 +102,7 @@ impl Case {
     fn world(&self) -> World {
         let mut w = World::new(self.world_seed, self.fault_permille, self.fault_mask);
         w.overrides = self.overrides.clone();
+        w.list_scale = self.list_scale;
         w
     }
 }
@@ -291,6 +295,7 @@ impl World {
             seed: self.seed,
             fault_permille: self.fault_permille,
             mask: self.mask,
+            list_scale: self.list_scale,
             overrides: self.overrides.clone(),
             consulted: std::mem::take(&mut self.consulted),
             fired: std::mem::take(&mut self.fired),
@@ -334,6 +339,7 @@ pub fn gen_case(run_seed: u64, cfg: &GenCfg) -> Case {
         Schedule {
             seed: sr.next_u64(),
             max_pending: *sr.pick(&[1, 2, 2, 3, 4]),
+            pending_permille: 600,
             spurious_permille: *sr.pick(&[0, 0, 50, 200]),
             ..Default::default()
         }
@@ -349,6 +355,7 @@ pub fn gen_case(run_seed: u64, cfg: &GenCfg) -> Case {
         world_seed: mix(&[run_seed, 0xC0FFEE]),
         fault_permille,
         fault_mask,
+        list_scale: 0,
         overrides: BTreeMap::new(),
         schedule,
     }
@@ -462,7 +469,7 @@ fn first_diff(a: &J, b: &J, path: &str) -> Option<String> {
             let kx: Vec<&String> = x.keys().collect();
             let ky: Vec<&String> = y.keys().collect();
             if kx != ky {
-                return Some(format!("{path}: keys {kx:?} vs {ky:?}"));
+                return Some(format!("object keys differ | {path}: keys {kx:?} vs {ky:?}"));
             }
             for (k, v) in x {
                 if let Some(d) = first_diff(v, &y[k], &format!("{path}/{k}")) {
@@ -473,7 +480,7 @@ fn first_diff(a: &J, b: &J, path: &str) -> Option<String> {
         }
         (J::Array(x), J::Array(y)) => {
             if x.len() != y.len() {
-                return Some(format!("{path}: list length {} vs {}", x.len(), y.len()));
+                return Some(format!("list lengths differ | {path}: list length {} vs {}", x.len(), y.len()));
             }
             for (i, (v, w)) in x.iter().zip(y).enumerate() {
                 if let Some(d) = first_diff(v, w, &format!("{path}/{i}")) {
@@ -486,7 +493,15 @@ fn first_diff(a: &J, b: &J, path: &str) -> Option<String> {
             if a == b {
                 None
             } else {
-                Some(format!("{path}: {a} vs {b}"))
+                let kind = |v: &J| match v {
+                    J::Null => "null",
+                    J::Bool(_) => "bool",
+                    J::Number(_) => "number",
+                    J::String(_) => "string",
+                    J::Array(_) => "list",
+                    J::Object(_) => "object",
+                };
+                Some(format!("{} vs {} | {path}: {a} vs {b}", kind(a), kind(b)))
             }
         }
     }
@@ -612,7 +627,7 @@ pub fn check_c26(case: &Case, p: &Parsed, trace: bool) -> C26Outcome {
     out.violation = (|| {
         // 1. data: exact, key order included
         if let Some(d) = first_diff(&real_data, &model_data, "data") {
-            return viol("data_differs_from_reference", format!("real vs model at {d}"));
+            return viol("data_differs_from_reference", format!("real vs reference: {d}"));
         }
         // 2. data == null ⇔ the model propagated to the root
         if real_data.is_null() != mr.data.is_none() {
@@ -683,7 +698,12 @@ pub fn check_c26(case: &Case, p: &Parsed, trace: bool) -> C26Outcome {
         //    reference (M); for mutations the root-level order must be document order.
         //    Order below the root is compared in C27 (sync vs async), not here: the spec leaves it open.
         let key = |c: &CallRec| format!("{}|{}.{}", c.path, c.parent_type, c.field);
-        let real_map: BTreeMap<String, &CallRec> = real.calls.iter().map(|c| (key(c), c)).collect();
+        let real_map: BTreeMap<String, &CallRec> = real
+            .calls
+            .iter()
+            .filter(|c| c.field != "<list item>")
+            .map(|c| (key(c), c))
+            .collect();
         let m_map: BTreeMap<String, &CallRec> = m.calls.iter().map(|c| (key(c), c)).collect();
         let f_map: BTreeMap<String, &CallRec> = f.calls.iter().map(|c| (key(c), c)).collect();
         for (k, c) in &real_map {
@@ -716,7 +736,7 @@ pub fn check_c26(case: &Case, p: &Parsed, trace: bool) -> C26Outcome {
             let roots = |calls: &[CallRec]| -> Vec<String> {
                 calls
                     .iter()
-                    .filter(|c| !c.path.contains('/'))
+                    .filter(|c| !c.path.contains('/') && c.field != "<list item>")
                     .map(|c| c.path.clone())
                     .collect()
             };
@@ -813,7 +833,7 @@ pub fn check_c27(case: &Case, p: &Parsed, trace: bool) -> C27Outcome {
             (Ok(a), Ok(b)) => {
                 if a != b {
                     let d = first_diff(a, b, "response").unwrap_or_default();
-                    return viol("sync_async_response_differs", format!("sync vs async at {d}"));
+                    return viol("sync_async_response_differs", format!("sync vs async: {d}"));
                 }
             }
             (Err(a), Err(b)) => {
@@ -865,6 +885,7 @@ pub fn case_digest(case: &Case) -> u64 {
     d.update_u64(case.fault_permille as u64);
     d.update_u64(case.fault_mask as u64);
     d.update_u64(case.introspection as u64);
+    d.update_u64(case.list_scale as u64);
     for (k, o) in &case.overrides {
         d.update_str(k);
         d.update_str(&world::outcome_to_json(o).to_string());
